@@ -169,6 +169,18 @@ class JoinSpec(Spec):
         self.nodes = [("strong", "s0", [], True), ("strong", "s1", [], False), ("calc", "n0", ["s0"], 3), ("calc", "n1", ["n0", "s1"], 5), ("weakdist", "n2", ["n1"], 2)]
 
 
+class OrderSpec(Spec):
+    """s0 -> V = n0 -> U = n1 -> T = n2(U, V): V enters T's ancestor cone twice, by paths of different length, and U is listed before V"""
+
+    def __init__(self):
+        self.nodes = [("strong", "s0", [], True), ("calc", "n0", ["s0"], 3), ("calc", "n1", ["n0"], 5), ("calc", "n2", ["n1", "n0"], 2), ("weakdist", "n3", ["n2"], 4)]
+
+
+ORDER_SCRIPTS = [
+    [("toggle",), ("assign", "s0", 1.5), ("targeted", "n2")],
+    [("toggle",), ("assign", "s0", -2.0), ("targeted", "n3_log_prob"), ("update",)],
+]
+
 SCRIPTS = [
     # outdated nodes left behind while auto-update is switched on again, then an assignment elsewhere
     [("toggle",), ("assign", "s0", 1.5), ("toggle",), ("assign", "s1", -2.0)],
@@ -182,15 +194,50 @@ SCRIPTS = [
 ]
 
 
+def inplace_case(col, auto_update):
+    """a MUTABLE value (numpy array / dict of arrays) changed in place and assigned back: same object, new contents - every dependent node
+    must be recomputed (full update, and targeted update)"""
+    import tensorflow_probability.substrates.jax.distributions as tfd_
+    bad = None
+    for kind in ("array", "dict"):
+        x0 = np.array([0.5, -1.0, 2.0], np.float32) if kind == "array" else {"a": np.array([0.5, -1.0], np.float32), "b": np.float32(2.0)}
+        x = lsl.Var(x0, name="x")
+        flat = lsl.Calc((lambda v: v * 1.0) if kind == "array" else (lambda v: np.concatenate([v["a"], np.atleast_1d(v["b"])])), x, _name="flat")
+        y = lsl.Var(np.zeros(3, np.float32), lsl.Dist(tfd_.Normal, loc=flat, scale=1.0), name="y")
+        m = lsl.GraphBuilder().add(y).build_model()
+        m.auto_update = auto_update
+        v = m.vars["x"].value
+        if kind == "array":
+            v[0] = 30.0
+        else:
+            v["a"][0] = 30.0
+        m.vars["x"].value = v  # the same object, changed contents
+        if not auto_update:
+            m.update("y_log_prob")
+        want = float(np.sum(np.asarray(tfd_.Normal(np.array([30.0, -1.0, 2.0], np.float32), 1.0).log_prob(np.zeros(3, np.float32)))))
+        node = m.nodes["y_log_prob"]
+        got = float(np.sum(np.asarray(node.value)))
+        if not node.outdated and not np.isclose(got, want, rtol=1e-5):
+            bad = f"{kind} value changed in place and assigned back (auto_update={auto_update}): y_log_prob reports up to date but sums to {got}, from-scratch value {want}"
+            break
+    col.add(None if bad is None else {"sig": "native::coherence::in_place_mutation", "what": bad, "input": {"auto_update": auto_update}})
+
+
 def bounded(tier, seed):
     rng = random.Random(seed)
     col = util.Collector()
     n_graphs, n_hist, length = (12, 4, 6) if tier == "quick" else (150, 12, 7)
-    for sc in SCRIPTS:
+    for au in (True, False):
         try:
-            col.add(run_history(col, rng, JoinSpec(), 0, script=sc))
+            inplace_case(col, au)
         except Exception as e:
-            col.add({"sig": f"native::coherence::exception::{type(e).__name__}", "what": f"{type(e).__name__}: {str(e)[:200]}", "input": {"graph": JoinSpec().nodes, "script": sc}})
+            col.add({"sig": f"native::coherence::exception::{type(e).__name__}", "what": f"{type(e).__name__}: {str(e)[:200]}", "input": {"scenario": "in-place mutation", "auto_update": au}})
+    for spec_cls, scripts in ((JoinSpec, SCRIPTS), (OrderSpec, ORDER_SCRIPTS)):
+        for sc in scripts:
+            try:
+                col.add(run_history(col, rng, spec_cls(), 0, script=sc))
+            except Exception as e:
+                col.add({"sig": f"native::coherence::exception::{type(e).__name__}", "what": f"{type(e).__name__}: {str(e)[:200]}", "input": {"graph": spec_cls().nodes, "script": sc}})
     for gi in range(n_graphs):
         spec = Spec(rng)
         for hi in range(n_hist):
@@ -199,7 +246,7 @@ def bounded(tier, seed):
             except Exception as e:
                 col.add({"sig": f"native::coherence::exception::{type(e).__name__}", "what": f"{type(e).__name__}: {str(e)[:200]}", "input": {"graph": spec.nodes}})
     return {"evaluations": col.evals, "distinct_nontrivial": col.evals,
-            "rule": (f"BOUNDED: {len(SCRIPTS)} scripted histories on a join-shaped graph (outdated nodes left behind while auto-update is on again, then an assignment to a non-ancestor); {n_graphs} seeded random DAGs (1-3 strong variables with or without a distribution, 1-4 further nodes out of cached Calc, transient Calc, weak variable, weak "
+            "rule": (f"BOUNDED: {len(SCRIPTS) + len(ORDER_SCRIPTS)} scripted histories on a join-shaped graph and on a graph where a node is reachable by two paths of different length (targeted update order) (outdated nodes left behind while auto-update is on again, then an assignment to a non-ancestor); {n_graphs} seeded random DAGs (1-3 strong variables with or without a distribution, 1-4 further nodes out of cached Calc, transient Calc, weak variable, weak "
                      f"variable with distribution, bare Value node; 1-2 parents each) x {n_hist} random histories of {length} operations (assign, toggle auto-update, full update, targeted "
                      "update of a random node, Node.clear_state() of a random caching node, save, restore) on the real model; call counters in every node function; after every operation every up-to-date node is compared with a "
                      f"from-scratch rebuild at the current input values. seed={seed}"),
